@@ -16,5 +16,7 @@ func All() map[string]func() *engine.Scenario {
 		"C12": C12,
 		"C13": C13,
 		"C14": C14,
+		"C18": C18,
+		"C19": C19,
 	}
 }
